@@ -33,6 +33,31 @@ def scenario_tuple(rng, k, first_best):
     return scns
 
 
+def intruder_scenario(rng):
+    """a solver that is only constructed: high dimension, default or unusual parameters"""
+    N = int(rng.integers(4, 9))
+    lo, hi, kind = scenario.gen_box(rng, N, "float")
+    obj = scenario.gen_objective(rng, N, ["linear", "cones"])
+    return {"N": N, "lower": lo, "upper": hi, "box": kind, "obj": obj, "r": 2.0, "eps": 1e-4, "iters": 50,
+            "m": int(rng.choice([10, 12])), "refine": False, "params_mode": str(rng.choice(["default", "own"]))}
+
+
+def all_interleavings_progs(lengths):
+    """distinct permutations of the multiset with lengths[s] copies of s"""
+    def rec(left, cur):
+        if not any(left):
+            yield list(cur)
+            return
+        for s in range(len(left)):
+            if left[s]:
+                left[s] -= 1
+                cur.append(s)
+                yield from rec(left, cur)
+                cur.pop()
+                left[s] += 1
+    yield from rec(list(lengths), [])
+
+
 def all_interleavings(k, steps):
     """distinct permutations of the multiset {0^steps, 1^steps, ...}"""
     def rec(left, cur):
@@ -62,6 +87,11 @@ def cases(tier, seed):
                 out.append({"kind": "all", "k": k, "steps": steps, "tuple": ti, "first_best": tup % 2 == 0, "seed": seed,
                             "scheds": scheds[a:a + blk], "space": len(scheds)})
             ti += 1
+    # two default-/shared-parameter solvers (3 steps each) and one construction-only high-dimensional intruder: all 140 schedules
+    scheds = list(all_interleavings_progs([3, 3, 1]))
+    for tup in range(6 if tier == "quick" else 12):
+        for a in range(0, len(scheds), 35):
+            out.append({"kind": "shared", "tuple": 500 + tup, "seed": seed, "scheds": scheds[a:a + 35], "space": len(scheds), "mode": ["default", "shared"][(tup // 3) % 2]})
     nr = 60 if tier == "quick" else 800
     for i in range(nr):
         out.append({"kind": "random", "i": i, "seed": seed, "tuple": 1000 + i, "first_best": i % 2 == 0})
@@ -77,8 +107,16 @@ class Inst:
 
     def step(self, kind):
         if kind == "construct":
-            self.prob, _ = record.make_problem(self.scn, cap=self.scn["iters"] + 60)
-            self.solver = Solver(self.prob, parameters=record.make_params(self.scn))
+            mode = self.scn.get("params_mode", "own")
+            if mode == "default":
+                self.prob, _ = record.make_problem(self.scn, cap=3000)
+                self.solver = Solver(self.prob)                      # the constructor's default SolverParameters
+            elif mode == "shared":
+                self.prob, _ = record.make_problem(self.scn, cap=3000)
+                self.solver = Solver(self.prob, parameters=self.shared)   # one user object passed to several solvers
+            else:
+                self.prob, _ = record.make_problem(self.scn, cap=self.scn["iters"] + 60)
+                self.solver = Solver(self.prob, parameters=record.make_params(self.scn))
             self.prob.solver = self.solver
         elif kind == "iter":
             record.run_pattern(self.solver, [["iter", 1]])
@@ -125,8 +163,16 @@ def log_eq(a, b):
     return len(a) == len(b) and all(np.array_equal(x["y"], y["y"]) and record.same_value(x["v"], y["v"]) for x, y in zip(a, b))
 
 
+def shared_params():
+    from iOpt.solver_parametrs import SolverParameters
+    return SolverParameters(eps=0.02, r=3.0, itersLimit=300, evolventDensity=8)
+
+
 def run_schedule(scns, progs, sched, viol, solo, tag):
     insts = [Inst(s) for s in scns]
+    sh = shared_params()
+    for ins in insts:
+        ins.shared = sh
     pcs = [0] * len(scns)
     order_captured = []
     def idle_state(ins):
@@ -180,13 +226,43 @@ def _s(sn):
     return {"y": None if sn["y"] is None else sn["y"].tolist(), "v": None if sn["v"] is None else float(sn["v"]), "nG": sn["nG"]}
 
 
+def _solo(scn, prog):
+    ins = Inst(scn)
+    ins.shared = shared_params()
+    for st in prog:
+        ins.step(st)
+    return {"log": [{"y": e["y"], "v": e["v"], "ph": e["ph"], "exc": e["exc"], "i": e["i"]} for e in ins.prob.log], "state": ins.state(),
+            "final": record.snap_solution(ins.solver.GetResults())}
+
+
 def solo_refs(scns, progs):
+    """'the result of running it alone': every solver's program is executed in a forked child of this worker, taken
+    before the case constructs anything, so nothing another instance of the case does (including merely being
+    constructed) can leak into the reference."""
+    import os
+    import pickle
     refs = []
     for scn, prog in zip(scns, progs):
-        ins = Inst(scn)
-        for st in prog:
-            ins.step(st)
-        refs.append({"log": list(ins.prob.log), "state": ins.state(), "final": record.snap_solution(ins.solver.GetResults())})
+        r, w = os.pipe()
+        pid = os.fork()
+        if pid == 0:
+            code = 0
+            try:
+                os.close(r)
+                data = pickle.dumps(_solo(scn, prog))
+                with os.fdopen(w, "wb") as fh:
+                    fh.write(data)
+            except BaseException:
+                code = 1
+            finally:
+                os._exit(code)
+        os.close(w)
+        with os.fdopen(r, "rb") as fh:
+            data = fh.read()
+        _, status = os.waitpid(pid, 0)
+        if status != 0 or not data:
+            raise RuntimeError("solo reference child failed (status %r)" % status)
+        refs.append(pickle.loads(data))
     return refs
 
 
@@ -211,6 +287,32 @@ def run_case(c):
                 "keys": ["%d|%s" % (c["tuple"], "".join(map(str, s))) for s in c["scheds"]],
                 "sample": {"solvers": k, "steps_each": steps, "space": c["space"], "first_schedule": c["scheds"][0],
                            "scenarios": [scenario.short(s) for s in scns]} if c["scheds"][0] == sorted(c["scheds"][0]) else None}
+    if c["kind"] == "shared":
+        scns = []
+        for sidx in range(2):
+            N = 2 if sidx == 0 else int(rng.integers(1, 3))
+            lo, hi, kind = scenario.gen_box(rng, N, "float")
+            obj = scenario.gen_objective(rng, N, ["cones", "sines", "wells", "linear"])
+            scns.append({"N": N, "lower": lo, "upper": hi, "box": kind, "obj": obj, "r": 2.0, "eps": 0.01, "iters": 20000, "m": 10, "refine": False,
+                         "params_mode": c["mode"]})
+        intr = intruder_scenario(rng)
+        intr["params_mode"] = c["mode"]                 # the intruder is handed the very same parameter object
+        intr["N"] = 6 + c["tuple"] % 3                   # dimensions 6, 7, 8
+        intr["lower"], intr["upper"] = [0.0] * intr["N"], [1.0] * intr["N"]
+        intr["obj"] = {"fam": "linear", "w": [1.0] * intr["N"], "b": 0.0}
+        scns.append(intr)
+        progs = [["construct", "iter", "solve"], ["construct", "iter", "solve"], ["construct"]]
+        solo = solo_refs(scns, progs)
+        for sched in c["scheds"]:
+            run_schedule(scns, progs, sched, viol, solo, "shared-" + c["mode"])
+        obs["interleavings_2x3+intruder"] = len(c["scheds"])
+        obs["interleavings"] = len(c["scheds"])
+        obs["params_" + c["mode"]] = 1
+        obs["highdim_intruders"] = 1
+        return {"violations": viol, "obs": obs, "nontrivial": True,
+                "keys": ["%d|%s" % (c["tuple"], "".join(map(str, s))) for s in c["scheds"]],
+                "sample": {"kind": "2 solvers with %s parameters + construction-only intruder N=%d" % (c["mode"], scns[2]["N"]), "space": c["space"],
+                           "first_schedule": c["scheds"][0]} if c["scheds"][0] == sorted(c["scheds"][0]) else None}
     # random long interleavings with construction-only intruders
     k = int(rng.integers(2, 5))
     scns = scenario_tuple(rng, k, c["first_best"])
@@ -219,8 +321,12 @@ def run_case(c):
     # intruders: constructed, never run
     ni = int(rng.integers(0, 3))
     for q in range(ni):
-        scns.append(scenario_tuple(rng, 1, False)[0])
+        scns.append(scenario_tuple(rng, 1, False)[0] if rng.random() < 0.5 else intruder_scenario(rng))
         progs.append(["construct"])
+    if rng.random() < 0.3:
+        for sc in scns[:k]:
+            if sc["N"] <= 2:
+                sc["params_mode"] = "shared"
     solo = solo_refs(scns, progs)
     pool = [s for s, p in enumerate(progs) for _ in p]
     for q in range(4):
@@ -240,6 +346,8 @@ def finalize(obs, tier, stats):
     for k, v in need.items():
         if obs.get(k, 0) != v:
             return "schedule space %s not exhausted: %d of %d" % (k, obs.get(k, 0), v), {}
+    if not obs.get("params_default") or not obs.get("params_shared") or not obs.get("highdim_intruders"):
+        return "default/shared parameter objects or high-dimensional intruders never exercised", {}
     if not obs.get("tuples_with_first_trial_optimum") or not obs.get("intruders"):
         return "D3/D4-sensitive tuples or intruders never exercised", {}
     return None, {"schedule_spaces_exhausted": {k: v for k, v in need.items()}}
